@@ -20,6 +20,10 @@ pub mod hooks {
     pub const TRY_RECV: u8 = 4;
     pub const EXECUTE: u8 = 5;
     pub const JOIN: u8 = 6;
+    /// an item was just enqueued (by send / try_send)
+    pub const SENT: u8 = 7;
+    /// an item was just taken (by recv / try_recv)
+    pub const TAKEN: u8 = 8;
     /// first id usable by harness-defined point kinds
     pub const USER: u8 = 16;
 
@@ -282,6 +286,7 @@ pub mod channel {
                 }
             }
             inner.push(msg);
+            hooks::yield_point(hooks::SENT, inner.id);
             Ok(())
         }
 
@@ -298,6 +303,7 @@ pub mod channel {
                 return Err(TrySendError::Full(msg));
             }
             inner.push(msg);
+            hooks::yield_point(hooks::SENT, inner.id);
             Ok(())
         }
 
@@ -366,7 +372,10 @@ pub mod channel {
                 }
             }
             match inner.pop() {
-                Some(v) => Ok(v),
+                Some(v) => {
+                    hooks::yield_point(hooks::TAKEN, inner.id);
+                    Ok(v)
+                }
                 None => Err(RecvError),
             }
         }
